@@ -76,7 +76,12 @@ int VPM(vsnprintf)(char *buf, size_t size, const char *fmt, va_list ap)
     (void) sz; (void) left;
     switch (*fmt) {
     case '%': vp_put(buf, size, &pos, '%'); break;
+#ifdef VP_CBMC
+    /* CBMC 6.11 stores a char passed through '...' without the default promotion to int: read the low byte */
+    case 'c': vp_put(buf, size, &pos, (char) va_arg(ap, char)); break;
+#else
     case 'c': vp_put(buf, size, &pos, (char) va_arg(ap, int)); break;
+#endif
     case 's': { const char *s = va_arg(ap, const char *); if (!s) s = "(null)";
                 size_t l = 0; while (s[l] && (prec < 0 || l < (size_t) prec)) l++;
                 size_t k; for (k = l; k < (size_t) width; k++) vp_put(buf, size, &pos, ' ');
@@ -205,7 +210,8 @@ void VPM(qsort)(void *base, size_t nmemb, size_t size, int (*cmp)(const void *, 
   char *b = (char *) base; size_t i, j, k;
   for (i = 1; i < nmemb; i++)
     for (j = i; j > 0 && cmp(b + (j-1)*size, b + j*size) > 0; j--)
-      for (k = 0; k < size; k++) { char t = b[(j-1)*size+k]; b[(j-1)*size+k] = b[j*size+k]; b[j*size+k] = t; }
+      if ((size & 7) == 0) { for (k = 0; k < size / 8; k++) { unsigned long *x = (unsigned long *)(b + (j-1)*size), *y = (unsigned long *)(b + j*size), t = x[k]; x[k] = y[k]; y[k] = t; } }
+      else for (k = 0; k < size; k++) { char t = b[(j-1)*size+k]; b[(j-1)*size+k] = b[j*size+k]; b[j*size+k] = t; }
 }
 
 /* sscanf for literals, whitespace, %u %x %d %lu %lx %ld %llu %llx with optional width, %n absent */
